@@ -41,7 +41,7 @@ META = {
             "abort_rx, foreign_address, bad_pid) and unrelated tokens/handshakes/SOFs/data; byte period, gaps, tx_ready pattern "
             "and timing variant per run",
 }
-TIERS = {"quick": {"runs": 1400, "wall": 75}, "thorough": {"runs": 24000, "wall": 1200}}
+TIERS = {"quick": {"runs": 2800, "wall": 75}, "thorough": {"runs": 24000, "wall": 1200}}
 
 DEV_CFG = {
     "V1": {"variant": "V1", "endpoints": [{"kind": "stream_in", "ep": 1, "mps": 16}, {"kind": "stream_out", "ep": 1, "mps": 16}]},
